@@ -152,10 +152,10 @@ fn @name@() {
     let r = t.check_and_apply_diacritic(&d);
     match r { Ok(()) => assert!(inv(&t), "role=diacritic-breaks-bundle-invariant"), Err(_) => assert!(t == s, "role=rejected-diacritic-changed-segment") }
     kani::cover!(r.is_ok() && t != s);
-    kani::cover!(r.is_err());
+    @cover_err@
     std::mem::forget(d);
 }
-""", name=nm, dname=d["name"].replace('"', ""), cp="%04x" % ord(d["diacrit"]), pre=dia_mods(d.get("prereqs"), feats), pay=dia_mods(d.get("payload"), feats)),
+""", name=nm, dname=d["name"].replace('"', ""), cp="%04x" % ord(d["diacrit"]), pre=dia_mods(d.get("prereqs"), feats), pay=dia_mods(d.get("payload"), feats), cover_err="kani::cover!(r.is_err());" if d.get("prereqs") else ""),
             functions=["Segment::check_and_apply_diacritic", "Segment::match_modifiers", "Segment::apply_diacritic_payload"], symbolic="all Inv bundles", shape="diacritic %d %s" % (di, d["name"]), unwind=unwind))
 
     # ---- side lemma: under Inv, `[+place]` as the rule matcher reads it == as the alias matcher reads it
